@@ -210,11 +210,11 @@ func httpGenerations(r *mon.Run) {
 				viol(fmt.Sprintf("callback-help-printed-%d-times", help), fmt.Sprintf("generation %d (%s): callback help printed %d times after one shell", g, desc, help))
 			}
 			from = to
+			r.Eval(1)
 			r.Count("http_generations", 1)
 			r.Count("http_ending:"+ending, 1)
 			r.Distinct("http|" + desc)
 		}
-		r.Eval(1)
 		if i == 0 {
 			r.Sample("http", map[string]any{"generations": hist})
 		}
